@@ -117,6 +117,12 @@ pub fn run(reg: &dyn Registry, ctx: &Ctx) -> Outcome {
                 }
             }
         }
+        if let Ok(Some(g)) = crate::ops::guarded(|| ty.default_ctor()) {
+            ctx.add("api_seeds_checked_nonzero_state", 1);
+            if g.ser().as_deref() == Some(&zero_img[..]) {
+                ctx.violation(&format!("C07:{}:api-zero-state", info.name), &format!("{}: Default::default() is in the all-zero state, the fixed point outside the cycle", info.name), json!({"kind":"note","ctor":"Default::default()"}));
+            }
+        }
         for x in crate::alphabet::u64_alphabet() {
             ctx.add("api_seeds_checked_nonzero_state", 1);
             if crate::ops::guarded(|| ty.seed_from_u64(x).ser()).ok().flatten().as_deref() == Some(&zero_img[..]) {
